@@ -18,6 +18,65 @@ WHY = {0: "simplify() raised", 2: "a residual Function of the simplified model c
        3: "unknowns minus equations changed"}
 
 
+def _regular(m):
+    """Balanced and structurally/numerically nonsingular in (der_states, alg_states) at a generic point."""
+    import casadi as ca
+    import numpy as np
+    unk = [v.symbol for v in list(m.der_states) + list(m.alg_states)]
+    n = sum(u.numel() for u in unk)
+    f = m.dae_residual_function
+    rows = sum(f.numel_out(k) for k in range(f.n_out()))
+    if n != rows or n == 0:
+        return False
+    eqs = ca.veccat(*m.equations)
+    J = ca.jacobian(eqs, ca.veccat(*unk))
+    allsyms = ca.symvar(ca.veccat(eqs, ca.vec(J)))
+    F = ca.Function("J", allsyms, [J])
+    rng = np.random.RandomState(7)
+    vals = [rng.uniform(0.5, 1.5, size=s.shape) for s in allsyms]
+    Jv = np.array(F(*vals))
+    return np.linalg.matrix_rank(Jv, tol=1e-9) == n
+
+
+def ext_work(item):
+    """Concrete stage over the extended C14 families (alias links/cycles, equation orientations, bad scaling)."""
+    import logging
+    logging.disable(logging.CRITICAL)
+    from vk.report import Collector
+    from vk.smt import pipeline
+    from props import h15
+    mid, text, osets = item
+    col = Collector()
+    try:
+        m0 = pipeline.real_generate(text, "S")
+        if not _regular(m0):
+            col.bump("ext_models_not_square_regular")
+            return col
+        col.bump("ext_models")
+        before = h15.balance(m0)
+        for o in osets:
+            m = pipeline.real_generate(text, "S", o)
+            case = f"ext:{mid}|" + ",".join(f"{k}={v}" for k, v in sorted(o.items()))
+            col.bump("ext_pairs")
+            try:
+                m.simplify(dict(o))
+            except Exception as e:
+                col.violation(case + ":raises", f"simplify() raises {type(e).__name__}: {str(e)[:100]}", {"model_text": text, "options": o})
+                continue
+            try:
+                after = h15.balance(m)
+                m.initial_residual_function
+            except Exception as e:
+                col.violation(case + ":unbuildable", f"a residual Function of the simplified model cannot be constructed: {str(e)[:120]}", {"model_text": text, "options": o})
+                continue
+            if after != before:
+                col.violation(case + ":balance", f"unknowns minus equations changed from {before} to {after}", {"model_text": text, "options": o})
+    except Exception as e:
+        import traceback
+        col.harness_error(f"ext {mid}: " + traceback.format_exc()[-600:])
+    return col
+
+
 def main():
     a = std_args(PROP)
     from props import h15
@@ -79,6 +138,10 @@ def main():
                               {"model_index": mi, "model_id": ids[mi], "flags": flags, "model_text": h15.MODELS[mi][1], "crosshair": v.detail})
             else:
                 rep.harness_error(f"counterexample {v.func}[{v.pin}]({argtxt}) did not reproduce concretely")
+    from vk import simpfam
+    from vk.report import run_parallel
+    for col in run_parallel(ext_work, simpfam.models_ext(a.tier), a.jobs):
+        rep.merge(col)
     cov = rep.coverage
     cov["states"] = max(1, n["confirmed"])
     cov["transitions"] = max(1, len(vs))
@@ -89,6 +152,8 @@ def main():
     cov["bounds"] = ("quick: 8 models x all 2^6 settings of (eliminate_constant_assignments, replace_constant_values, replace_parameter_expressions, detect_aliases, "
                      "eliminable_variable_expression, factor_and_simplify_equations); thorough: all 47 family models x 2^6, and 8 models x 2^9 adding "
                      "(replace_parameter_values, expand_mx, allow_derivative_aliases)")
+    cov["bounds"] += ("; concrete supplementary stage: every model of the extended C14 families (alias links and cycles, 15 equation orientations, badly scaled affine systems) that is "
+                      "balanced and has a nonsingular Jacobian at a generic point, under the option sets C14 uses for it")
     rep.assumptions += ["the model family is square and uniquely solvable by construction (vk/simpfam.py)",
                         "an exception from simplify() counts as a failure of C15 (no option set in the family raises on the unchanged tree)",
                         "values are realised at the CasADi boundary"]
